@@ -1,14 +1,16 @@
 import MetadorModel.Gen.PatchSteps
 import MetadorModel.Bridge.PatchStepsModel
 /-!
-# Bridge for C11: guards, `IH5UserBlock.create`, `_new_container`, `create_patch`, `discard_patch`
+# Bridge for C11: constants, file names, guards, `_ublock` / `_set_ublock`
 as regenerated from the source (`Gen/PatchSteps.lean`, written by `harness/translate_c11.py` on every run)
 
 Each `gen_*` theorem says that a regenerated method, run on the Python object that stands for a state `s`
 of the record model, is the hand-written step sequence of `Bridge/PatchStepsModel.lean` — same result or
 exception, same object afterwards, same disk, **same file-system actions in the same order**. Together with
-`createPatchW_res` … (there) this gives `gen_create_patch_model`: the regenerated `create_patch` *is* the
-model's `createPatch`. A change of the source that reorders, drops or adds a file-system effect, or changes a
+`createPatchW_res` … (there) this gives `gen_create_patch_model` (Bridge/PatchStepsCreate.lean): the regenerated
+`create_patch` *is* the model's `createPatch`; likewise `gen_discard_patch_model` (PatchStepsDiscard),
+`gen_commit_patch_model`, `gen_mf_commit_patch_model` (PatchStepsCommit), `gen_close_model` (PatchStepsClose);
+`IH5UserBlock.save` at byte level: PatchStepsSave; crash states of the step sequences: PatchStepsCrash. A change of the source that reorders, drops or adds a file-system effect, or changes a
 guard, changes the generated text and breaks the `gen_*` theorem of that method.
 -/
 set_option linter.unusedSimpArgs false
@@ -83,189 +85,5 @@ theorem gen_set_ublock_last (w : World) (u : UB) :
   · unfold IH5Record._set_ublock
     simp [h, pyIdx_last_nil]
   · rw [gen_set_ublock_last_snoc w hs x u h, h]; simp
-
-/-! ## `IH5UserBlock.create` -/
-
-/-- a patch block: index and `prev_patch` from the predecessor, one fresh uuid, **no checksum** -/
-theorem gen_ub_create_some (p : UB) (w : World) :
-    IH5UserBlock.create (some p) w = (.ok (newPatchUB p w.next), { w with next := w.next + 1 }) := by
-  unfold IH5UserBlock.create
-  simp [pyUuid1, newPatchUB]
-
-theorem gen_ub_create_none (w : World) :
-    IH5UserBlock.create none w = (.ok (newBaseUB w.next), { w with next := w.next + 2 }) := by
-  unfold IH5UserBlock.create
-  simp [pyUuid1, newBaseUB]
-
-/-! ## `_new_container`: steps 1–3 -/
-
-/-- create with mode `x` and a reserved user block of 1024 bytes, close, write the user block, reopen `r+` —
-in this order, and nothing else -/
-theorem gen_new_container (path : Name) (ub : UB) (w : World) :
-    IH5Record._new_container path ub w =
-      if w.self.files.any (fun h => h.live && h.name == path) then (.error .osError, w)
-      else if (getF w.disk path).isSome then (.error .fileExists, w)
-      else (.ok ⟨path, true, true⟩,
-            { w with disk := setF w.disk path (.cont ub []), trace := w.trace ++ createTrace path ub }) := by
-  unfold IH5Record._new_container
-  by_cases h1 : w.self.files.any (fun h => h.live && h.name == path) = true
-  · simp [pyH5Create, h1]
-  · by_cases h2 : (getF w.disk path).isSome = true
-    · simp [pyH5Create, h1, h2]
-    · simp [pyH5Create, h1, h2, pyH5Close, pyUBSave, pyH5Open, getF_setF_eq, setF_setF, gen_constants.1, createTrace]
-
-/-! ## `create_patch` -/
-
-theorem mkHandles_head (f0 : Name) (u0 : UB) (rest : List (Name × UB)) (rw : Bool) :
-    ∃ h t, mkHandles ((f0, u0) :: rest) rw = h :: t ∧ h.name = f0 := by
-  cases rest with
-  | nil => exact ⟨_, _, rfl, rfl⟩
-  | cons y r => exact ⟨_, _, rfl, rfl⟩
-
-theorem next_patch_filepath_ofState (s : State) (hp : PyRep s.h) (f0 : Name) (u0 : UB) (rest : List (Name × UB))
-    (fl : Name) (ul : UB) (hfs : s.h.files = (f0, u0) :: rest) (hl : lastFile s.h.files = some (fl, ul)) :
-    pyNextPatchFilepath (World.ofState s) = (.ok (patchFile (inferName f0) (ul.idx + 1)), World.ofState s) := by
-  obtain ⟨h, t, hh, hname⟩ := mkHandles_head f0 u0 rest s.h.lastRW
-  rcases nil_or_snoc s.h.files with hnil | ⟨init, ⟨fl', ul'⟩, hsn⟩
-  · rw [hnil] at hfs; cases hfs
-  · have hl' := lastFile_append_single init (fl', ul')
-    rw [← hsn, hl] at hl'
-    cases hl'
-    have hget : pyDictGet s.h.files fl = .ok ul := pyDictGet_mem _ _ _ hp.1 (lastFile_mem _ _ hl)
-    have h0 : pyIdx (World.ofState s).self.files (0 : Int) = .ok h := by
-      rw [ofState_files, hfs, hh, pyIdx_zero_cons]
-    have h1 : pyIdx (World.ofState s).self.files (-1 : Int) = .ok ⟨fl, s.h.lastRW, true⟩ := by
-      rw [ofState_files, hsn, mkHandles_snoc, pyIdx_last_snoc]
-    have h2 : (World.ofState s).self.ublocks = s.h.files := rfl
-    simp only [pyNextPatchFilepath, h0, h1, h2, hget, hname]
-
-/-- **`create_patch`** as regenerated from the source is the step sequence `createPatchW` -/
-theorem gen_create_patch (s : State) (hp : PyRep s.h) :
-    IH5Record.create_patch (World.ofState s) = createPatchW s := by
-  have hcl : (World.ofState s).self.closed = s.h.closed := rfl
-  have hal : (World.ofState s).self.allow = s.h.allow := rfl
-  have hwr : lastIsRW (World.ofState s).self.files = hasWritable s.h := (hasWritable_eq s.h).symm
-  unfold IH5Record.create_patch createPatchW
-  cases hc : s.h.closed
-  case true => simp [gen_expect_open, hcl, hc]
-  case false =>
-    cases ha : s.h.allow
-    case false => simp [gen_expect_open, gen_expect_not_ro, hcl, hal, hc, ha]
-    case true =>
-      cases hw : hasWritable s.h
-      case true => simp [gen_expect_open, gen_expect_not_ro, gen_has_writable, hcl, hal, hwr, hc, ha, hw]
-      case false =>
-        simp only [run_bind, gen_expect_open, gen_expect_not_ro, gen_has_writable, hcl, hal, hwr, hc, ha, hw,
-          Bool.false_eq_true, if_false, if_true, Bool.not_true]
-        rcases nil_or_snoc s.h.files with hnil | ⟨init, ⟨fl, ul⟩, hsn⟩
-        · have h0 : pyIdx (World.ofState s).self.files (0 : Int) = .error .indexError := by
-            rw [ofState_files, hnil]; exact pyIdx_zero_nil
-          simp [pyNextPatchFilepath, h0, hnil, lastFile]
-        · have hl : lastFile s.h.files = some (fl, ul) := by rw [hsn]; exact lastFile_append_single _ _
-          cases hfs : s.h.files with
-          | nil => rw [hfs] at hsn; simp at hsn
-          | cons a rest =>
-            obtain ⟨f0, u0⟩ := a
-            rw [next_patch_filepath_ofState s hp f0 u0 rest fl ul hfs hl]
-            have hfiles : (World.ofState s).self.files = init.map ro ++ [⟨fl, s.h.lastRW, true⟩] := by
-              rw [ofState_files, hsn, mkHandles_snoc]
-            have hget : pyDictGet (World.ofState s).self.ublocks fl = .ok ul :=
-              pyDictGet_mem _ _ _ hp.1 (lastFile_mem _ _ hl)
-            simp only [gen_ublock_last_snoc _ _ _ hfiles, hget, gen_ub_create_some, gen_new_container]
-            have hdisk : (World.ofState s).disk = s.disk := rfl
-            have hnext : (World.ofState s).next = s.next := rfl
-            have htr : (World.ofState s).trace = [] := rfl
-            rw [ofState_files, any_live_mkHandles, hdisk, hnext, htr]
-            have hl' := hl
-            rw [hfs] at hl'
-            simp only [hl', fileNames]
-            rcases Bool.eq_false_or_eq_true ((s.h.files.map Prod.fst).contains (patchFile (inferName f0) (ul.idx + 1)))
-              with hopen | hopen
-            · simp only [hopen, if_true]
-            · rcases Bool.eq_false_or_eq_true (getF s.disk (patchFile (inferName f0) (ul.idx + 1))).isSome with hex | hex
-              · simp only [hopen, hex, Bool.false_eq_true, if_false, if_true]
-              · simp only [hopen, hex, Bool.false_eq_true, if_false]
-                have hc2 : (Obj.ofHandle s.h).closed = false := hc
-                have ha2 : (Obj.ofHandle s.h).allow = true := ha
-                have hf2 : (Obj.ofHandle s.h).files = mkHandles s.h.files s.h.lastRW := rfl
-                simp [pySetFiles, pySetUblocks, World.ofState, hc2, ha2, hf2]
-
-/-- **`create_patch`** as regenerated from the source is the model's `createPatch` (state, outcome, files
-created / removed / rewritten) -/
-theorem gen_create_patch_model (s : State) (hp : PyRep s.h) :
-    resOf s (IH5Record.create_patch (World.ofState s)) = createPatch s := by
-  rw [gen_create_patch s hp]; exact createPatchW_res s hp
-
-/-! ## `discard_patch` -/
-
-theorem gen_delete_latest_container (w : World) (hs : List H5) (x : H5) (hf : w.self.files = hs ++ [x]) :
-    IH5Record._delete_latest_container w =
-      match pyDictDel w.self.ublocks x.name with
-      | .error e => (.error e, { w with self := { w.self with files := hs } })
-      | .ok d =>
-        let w1 : World := { w with self := { w.self with files := hs, ublocks := d },
-                                   trace := if x.live then w.trace ++ [.h5close x.name x.rw] else w.trace }
-        match getF w.disk x.name with
-        | none => (.error .fileNotFound, w1)
-        | some _ => (.ok (), { w1 with disk := eraseF w.disk x.name, trace := w1.trace ++ [.unlink x.name] }) := by
-  unfold IH5Record._delete_latest_container
-  cases hd : pyDictDel w.self.ublocks x.name with
-  | error e => simp [hf, pyPop_snoc, pySetFiles, hd]
-  | ok d =>
-    cases hg : getF w.disk x.name <;> cases hl : x.live <;>
-      simp [hf, pyPop_snoc, pySetFiles, pySetUblocks, hd, pyH5Close, pyUnlink, hg, hl]
-
-/-- **`discard_patch`** as regenerated from the source is the step sequence `discardW` -/
-theorem gen_discard_patch (s : State) (hp : PyRep s.h) :
-    IH5Record.discard_patch (World.ofState s) = discardW s := by
-  have hcl : (World.ofState s).self.closed = s.h.closed := rfl
-  have hal : (World.ofState s).self.allow = s.h.allow := rfl
-  have hwr : lastIsRW (World.ofState s).self.files = hasWritable s.h := (hasWritable_eq s.h).symm
-  have hlen : (World.ofState s).self.files.length = s.h.files.length := by rw [ofState_files, mkHandles_length]
-  unfold IH5Record.discard_patch discardW
-  cases hc : s.h.closed
-  case true => simp [gen_expect_open, hcl, hc]
-  case false =>
-    cases ha : s.h.allow
-    case false => simp [gen_expect_open, gen_expect_not_ro, hcl, hal, hc, ha]
-    case true =>
-      cases hw : hasWritable s.h
-      case false => simp [gen_expect_open, gen_expect_not_ro, gen_has_writable, hcl, hal, hwr, hc, ha, hw]
-      case true =>
-        by_cases hone : s.h.files.length = 1
-        · have hone' : (s.h.files.length == 1) = true := by simpa using hone
-          simp only [run_bind, run_pure, run_pySelf, gen_expect_open, gen_expect_not_ro, gen_has_writable, hcl, hal, hwr,
-            hc, ha, hw, hlen, hone', Bool.false_eq_true, if_false, if_true, Bool.not_true]
-          simp
-        · have hone' : (s.h.files.length == 1) = false := by simpa using hone
-          simp only [run_bind, run_pure, run_pySelf, gen_expect_open, gen_expect_not_ro, gen_has_writable, hcl, hal, hwr,
-            hc, ha, hw, hlen, hone', Bool.false_eq_true, if_false, if_true, Bool.not_true]
-          rcases nil_or_snoc s.h.files with hnil | ⟨init, ⟨f, ub⟩, hsn⟩
-          · simp [hasWritable, hnil] at hw
-          · have hl : lastFile s.h.files = some (f, ub) := by rw [hsn]; exact lastFile_append_single _ _
-            have hrw : s.h.lastRW = true := by simpa [hasWritable, hsn] using hw
-            have hfiles : (World.ofState s).self.files = init.map ro ++ [⟨f, true, true⟩] := by
-              rw [ofState_files, hsn, mkHandles_snoc, hrw]
-            have hni : f ∉ init.map Prod.fst := by
-              apply nodup_snoc_notin (u := ub); rw [← hsn]; exact hp.1
-            have hdel : pyDictDel (World.ofState s).self.ublocks f = .ok init := by
-              show pyDictDel s.h.files f = .ok init
-              rw [hsn]; exact pyDictDel_snoc _ _ _ hni
-            rw [gen_delete_latest_container _ _ _ hfiles]
-            simp only [hdel, hl]
-            have hdl : dropLastF (World.ofState s).self.ublocks = init := by
-              show dropLastF s.h.files = init
-              rw [hsn]; exact dropLastF_snoc _ _
-            have hdisk : (World.ofState s).disk = s.disk := rfl
-            have hc2 : (Obj.ofHandle s.h).closed = false := hc
-            have ha2 : (Obj.ofHandle s.h).allow = true := ha
-            have hf2 : (Obj.ofHandle s.h).files = init.map ro ++ [⟨f, true, true⟩] := hfiles
-            have hdl2 : dropLastF (Obj.ofHandle s.h).ublocks = init := hdl
-            cases hg : getF s.disk f <;>
-              simp [hdisk, hg, hf2, hdl2, hc2, ha2, World.ofState]
-
-theorem gen_discard_patch_model (s : State) (hp : PyRep s.h) (hd : OnDisk s) :
-    resOf s (IH5Record.discard_patch (World.ofState s)) = discardPatch s := by
-  rw [gen_discard_patch s hp]; exact discardW_res s hp hd
 
 end MetadorModel.Bridge.PatchSteps
